@@ -44,3 +44,8 @@ claim('C19',
       'routing-table extraction with provenance (recipient and notice fields), loop-exit classification over the statically computed producible error set (Display literals / discriminant switch evaluated from MIR), CFG exit-edge rules, dominance of deregistration',
       'Decided from MIR: route_message delivers Send/RegSend/Exit/MonitorPExit to the recipient named in the control message (RegSend via whereis) with sender, reference and reason taken from the matching fields, and everything else is ignored; no loop exit lies on the Ok arm (routing failures and unknown recipients keep the receiver alive); for each edp_client::Error variant that receive_message_from_read_half can actually return (computed from constructions, ?-conversions and callees) the loop continues or breaks as the property requires (evaluated on the predicate the code uses: a substring test on the variants\' Display literals, or a discriminant match); connections.remove runs only after the loop and on every exit. Not decided: fault sequences over time, cancel-safety of reads.',
       NOTE, 'DESIGN.md §4 C19')
+
+claim('C09',
+      'dominance of the duplicate guard over the completion counter, consuming-completion (typestate by ownership + provenance), key provenance, reachability of the expiry predicate from the receive entry point, traversal-order shape rule, PANIC family with interval/relational discharge, forward-slice transfer rule',
+      'Decided from MIR: every received_count increment is under the is-empty test of the very slot it fills and is_complete is an equality with the total (duplicates never count; completion happens exactly at the last missing fragment); a completed message passed to reassemble was removed from pending or never inserted and reassemble consumes it; every pending access is keyed by the call\'s own sequence id (isolation); the expiry predicate is reachable from Connection::receive_message; buffered continuations are transferred when the total becomes known; no panic-capable site in the assembler is undischarged; the concatenation order is checked against the protocol\'s descending-id order (recorded known finding). Not decided: permutation invariance as a quantified statement, memory accounting.',
+      NOTE, 'DESIGN.md §4 C09')
